@@ -56,7 +56,7 @@ def corrupt(text, t):
         nums = [(m.start(), m.end()) for m in _re.finditer(r"(?<![A-Za-z_0-9.])[-+]?[0-9]+(?:\.[0-9]+)?(?:[eE][-+]?[0-9]+)?", text)]
         if nums:
             a, b = nums[t.randrange(len(nums))]
-            lit = t.choice(["1.0e999", "-2.5E+400", "1.0e-999", "99999999999999999999999999", "-99999999999999999999", "0000", "+5", "00.5", ".5", "5.", "1e5", "0x10", "1_000", "1.5.2", "--1", "1e", "-0", "-0.0", "9" * 400])
+            lit = t.choice(["-1", "-2", "-3", "1.0e999", "-2.5E+400", "1.0e-999", "99999999999999999999999999", "-99999999999999999999", "0000", "+5", "00.5", ".5", "5.", "1e5", "0x10", "1_000", "1.5.2", "--1", "1e", "-0", "-0.0", "9" * 400])
             return text[:a] + lit + text[b:], {"kind": "number", "at": a, "lit": lit[:12]}
         kind = "truncate"
     if kind == "truncate":
@@ -108,7 +108,10 @@ class Session:
         self.st = st
         self.role = role
         self.clock = seams.StepClock()
-        self.G = GS.build_gateset()
+        self.G = GS.build_gateset(style=plan.get("gateset_style", "direct"))
+        if plan.get("gateset") == "nobusy":
+            # a native gate table that lacks prepare_all / measure_all
+            self.G = {k: v for k, v in self.G.items() if k not in GS.BUSY}
         self.viol = V()
         self.probes = {}
         self.faults = {}
@@ -213,6 +216,9 @@ class Session:
         out = {}
         if e.get("pulses"):
             out.update(autoload_pulses=True, import_path=self.scratch)
+            if kw.get("inject_subset"):
+                # inject_pulses overrides usepulses for the named gates
+                out["inject_pulses"] = {k: self.G[k] for k in kw["inject_subset"] if k in self.G}
         elif e.get("anon"):
             out.update(inject_pulses=None, autoload_pulses=False)
         else:
@@ -536,7 +542,7 @@ def plan_c11(run_seed):
                 nested["override"] = {}
             op["nested"] = {"at": t.randrange(6), "op": nested}
         ops.append(op)
-    return {"engine": "E1", "prop": "C11", "run_seed": run_seed, "texts": texts, "ops": ops, "tapes": None}
+    return {"engine": "E1", "prop": "C11", "run_seed": run_seed, "texts": texts, "ops": ops, "gateset": t.weighted([("full", 5), ("nobusy", 1)]), "gateset_style": t.choice(["direct", "direct", "copied"]), "tapes": None}
 
 
 def output_list_for(sess, op, entry_ti, c):
@@ -843,6 +849,8 @@ def plan_c16(run_seed):
                 kw[t.choice(["expand_macro", "expand_let", "expand_let_map"])] = True
             if (kw.get("expand_let") or kw.get("expand_let_map")) and e.get("ov") and t.chance(0.5):
                 kw["override"] = e["ov"]
+        if e.get("pulses") and t.chance(0.2):
+            kw["inject_subset"] = t.sample(sorted(GS.SIGS), t.randint(1, 3))
         if t.chance(p_bad) and "raw" not in e:
             # a corrupted variant of text ti becomes a new text entry
             ops.append({"op": "corrupt", "text": ti, "seed": t.randrange(1 << 30), "kw": kw, "via": t.weighted([("string", 5), ("file", 2), ("sexpr", 1), ("header", 0.5), ("run", 1.0 if not e.get("anon") else 0.2), ("run_file", 0.7 if e.get("pulses") else 0)])})
@@ -891,7 +899,8 @@ def check_type(S, j, op, o, text, allowed_extra=()):
     if op.get("via") in ("file", "run_file", "header_file"):
         # Python's text layer hands the library universal newlines
         text = text.replace("\r\n", "\n").replace("\r", "\n")
-    if k in ("nonterm", "exc:MemoryError") and big_literal(text):
+    if big_literal(text) and (k in ("nonterm", "exc:MemoryError") or (k in ("exc:OverflowError", "exc:ValueError") and o.get("where") == "_make_subcircuit@unitary.py")):
+        # also: the state vector of an absurdly large register cannot be allocated
         S.probe("budget_verdict_waived_big_literal")
         return
     if k == "nonterm":
